@@ -90,9 +90,9 @@ func (e *emitter) add(c Case) {
 		e.meta.Hist("recv:" + o.Res)
 		nontrivial = len(o.Evs) > 1
 	case "mgr":
-		seen, obs := runMgr(c.Ops)
+		seen, obs := runMgr(c.Ops, c.NoEvent)
 		c.Ops, c.Obs = seen, obs
-		term = mgrTerm(nm, seen, obs)
+		term = mgrTerm(nm, seen, obs, c.NoEvent)
 		for _, o := range obs {
 			e.meta.Hist("mgr:" + o.Res)
 			if o.Code != 0 {
@@ -174,6 +174,7 @@ func main() {
 	pairsIngest(e.add)
 	metaOptsIngest(e.add)
 	longFamilies(e.add)
+	extremesIngest(e.add)
 	gridSub(e.add, o.Thorough())
 	gridCli(e.add)
 
@@ -205,7 +206,7 @@ func main() {
 	}
 	g = &gen{r: r.Fork()}
 	for i := 0; i < 150*scale; i++ {
-		e.add(Case{Family: "mgr-random", Kind: "mgr", Ops: g.resps(true)})
+		e.add(Case{Family: "mgr-random", Kind: "mgr", NoEvent: i%3 == 2, Ops: g.resps(true)}) // NoEvent: manager without callbacks
 	}
 	g = &gen{r: r.Fork()}
 	for i := 0; i < 700*scale; i++ {
